@@ -14,7 +14,8 @@
 //! not every case gets its own contract).
 //! Operands: all pairs / triples of a boundary set, plus seeded random words of several shapes.
 //! The cases files make Coq evaluate `apply_op spec_ops` and `apply_op impl_ops` on the same operands
-//! and compare both with the returned 32-byte word.
+//! and compare both with the returned 32-byte word (coq/Model/EvmWordCorr.v: the step carries the
+//! returned word, the observation is [] iff both evaluations equal it).
 //! Monitor: an independent big-integer evaluation of the Ethereum definition of the instruction in
 //! Rust (so that a wrong result is reported with a replayable input even before Coq runs).
 use fil_actor_evm::interpreter::opcodes as oc;
@@ -157,6 +158,17 @@ fn reference(name: &str, a: &BigInt, b: &BigInt, c: &BigInt) -> BigInt {
 }
 fn small(a: &BigInt) -> usize {
     a.to_u64_digits().1.first().cloned().unwrap_or(0) as usize
+}
+
+/// five 60-bit limbs, least significant first, as Coq primitive-integer literals
+fn limbs5(x: &BigInt) -> String {
+    let m = (BigInt::one() << 60usize) - BigInt::one();
+    let mut v = vec![];
+    for i in 0..5 {
+        let l: BigInt = (x >> (60usize * i)) & &m;
+        v.push(l.to_string());
+    }
+    v.join(" ")
 }
 
 fn to_be32(x: &BigInt) -> [u8; 32] {
@@ -495,16 +507,23 @@ impl Runner {
             self.stats.panics.push(p.clone());
         }
         self.w.v.panics.borrow_mut().clear();
-        (
-            format!("WOp {} {} {} {}", op.byte, cf::z(&args[0]), cf::z(&args[1]), cf::z(&args[2])),
-            vec![cf::z(&obs), cf::z(&obs)],
-        )
+        // the step: opcode, operands and the returned word as 60-bit primitive-integer limbs; the model
+        // compares its two evaluations with the word and yields [] when both agree (EvmWordCorr.v)
+        let r = match &res { Ok(v) => v.clone(), Err(_) => w() }; // 2^256 can never equal a model result
+        let mut t = format!("W{} {}", op.arity, op.byte);
+        for j in 0..op.arity {
+            t.push(' ');
+            t.push_str(&limbs5(&args[j]));
+        }
+        t.push(' ');
+        t.push_str(&limbs5(&r));
+        (t, vec![])
     }
 }
 
 fn main() {
     let a = cf::parse_args();
-    let header = "From VF Require Import Model.EvmSpec Model.EvmWord Base.Corr.\nFrom Coq Require Import ZArith List.\nImport ListNotations.\nOpen Scope Z_scope.\n";
+    let header = "From VF Require Import Model.EvmWordCorr Base.Corr.\nFrom Coq Require Import ZArith List Uint63.\nImport ListNotations.\nOpen Scope Z_scope.\n";
     let mut cw = CaseWriter::new(&a.out, header, "check_case", a.shards);
     let mut rn = Runner { w: setup(), stats: Stats::default(), fails: vec![], imm_checked: 0, last: Err(0) };
     let chunk = a.len.max(1);
